@@ -162,6 +162,15 @@ def run(ctx, F):
     okd = len(dn) == 1 and bool(sch_) and all(guard_find(fm, c.bb, r"has_designated_work", False) for c in sch_)
     ctx.judge(okd, "C15.designated-first", "pending designated work keeps the GC going", expected="find_more_work_for_workers consults has_designated_work() before opening buckets or reporting 'finished'",
               found="has_designated_work sites=%d" % len(dn), where=where(fm), key="C15.designated-first|check")
+    hd = F.fn("scheduler::worker::WorkerGroup::has_designated_work")
+    anyc = [c for c in live_calls(hd) if c.name == "any"]
+    allc = [c for c in live_calls(hd) if c.name == "all"]
+    clo_ok = False
+    for cl in closures_of(F, hd):
+        rt = [strip(t) for r, t in cl.flow.return_trees()]
+        clo_ok = bool(rt) and all(t and t[0] == "un" and t[1] == "Not" and "is_empty" in show(t) and "designated_work" in show(t) for t in rt)
+    ctx.judge(len(anyc) == 1 and not allc and clo_ok, "C15.designated-first", "has_designated_work is true when ANY worker still holds a designated packet",
+              expected="workers_shared.iter().any(|w| !w.designated_work.is_empty())", found="any=%d all=%d closure-ok=%s" % (len(anyc), len(allc), clo_ok), where=where(hd), key="C15.designated-first|any")
     falses = [(b, t, g) for b, t, g in ret_table(fm) if const_arg(t) is False]
     okf = bool(falses) and all(any("has_designated_work" in show(p.tree) and p.val is False for p in g) for b, t, g in falses)
     ctx.judge(okf, "C15.designated-first", "'no more work' is only reported when no worker holds designated packets", expected="return false dominated by has_designated_work()==false",
